@@ -12,9 +12,10 @@ import random
 
 from . import corpus, fastpacket as fp
 
-PGN = {"A": 127250, "B": 130306, "F": 128275, "CLAIM": 60928, "P": 61184, "P1": 61184, "P2": 61184}
+PGN = {"A": 127250, "B": 130306, "F": 128275, "CLAIM": 60928, "P": 61184, "P1": 61184, "P2": 61184, "Q": 65285, "Q1": 65285}
 IDS = {"A": "vesselHeading", "B": "windData", "F": "distanceLog", "CLAIM": "isoAddressClaim",
-       "P1": "victronBatteryRegister", "P2": "0xef00ManufacturerProprietarySingleFrameAddressed"}
+       "P1": "victronBatteryRegister", "P2": "0xef00ManufacturerProprietarySingleFrameAddressed",
+       "Q1": "airmarBootStateAcknowledgment"}
 MFR = {"m1": "Furuno", "m2": "Maretron"}
 UNKNOWN_PGN = 129285 + 30000        # checked at run time not to be in the database
 SRC = {1: 11, 2: 12, 3: 13}
@@ -69,6 +70,8 @@ def packet_for(ev: dict, counter: list) -> tuple[bytes, dict]:
             payload = bytes([0x66, 0x99, c % 250, 0x01, 0x10 + c % 100, 0x02, 0x03, 0x00])
         elif ev["pgn"] == "P2":            # no manufacturer definition matches: the PGN's fallback definition
             payload = bytes([0x05, 0x18, c % 250 + 1, 0x11, 0x22, 0x33, 0x44, 0x55])
+        elif ev["pgn"] == "Q1":            # Airmar boot state (manufacturer 135, industry 4); PGN 65285 has no fallback
+            payload = bytes([0x87, 0x98, 0xF8 | (c % 3), 0xFF, 0xFF, 0xFF, 0xFF, 0xFF])
         else:
             payload = bytes([c % 250, 0x10 + c % 100, 0x01, 0x20, 0x03, 0xFA, 0xFF, 0xFF])
         src = SRC[ev["src"]]
@@ -88,6 +91,10 @@ def packet_for(ev: dict, counter: list) -> tuple[bytes, dict]:
     if k == "claim":
         return fp.ebyte_packet(PGN["CLAIM"], SRC[ev["src"]], 255, 6, name_payload(ev["name"], ev["src"])), \
             {"k": "claim", "src": ev["src"], "name": ev["name"]}
+    if k == "nomatch":                     # PGN 65285 from a manufacturer none of its definitions is for
+        counter[0] += 1
+        return fp.ebyte_packet(PGN["Q"], SRC[ev["src"]], 255, 2, bytes([0x66, 0x99, counter[0] % 250, 2, 3, 4, 5, 6])), \
+            {"k": "nomatch", "src": ev["src"]}
     if k == "unknown":
         return fp.ebyte_packet(UNKNOWN_PGN, SRC[ev["src"]], 255, 6, b"\x01\x02\x03\x04\x05\x06\x07\x08"), \
             {"k": "unknown", "src": ev["src"]}
